@@ -14,8 +14,13 @@ VERIF = os.path.dirname(os.path.dirname(os.path.abspath(__file__)))
 TARGET = "/var/tmp/verif-seed-target"
 
 
-def sh(cmd, cwd=None, env=None, timeout=3600):
-    r = subprocess.run(cmd, cwd=cwd, env=env, stdout=subprocess.PIPE, stderr=subprocess.STDOUT, text=True, timeout=timeout)
+def sh(cmd, cwd=None, env=None, timeout=900):
+    try:
+        r = subprocess.run(cmd, cwd=cwd, env=env, stdout=subprocess.PIPE, stderr=subprocess.STDOUT, text=True, timeout=timeout)
+    except subprocess.TimeoutExpired as e:
+        # a hanging suite or demonstration counts as a failing one
+        subprocess.run(["pkill", "-9", "-f", "/var/tmp/verif-seed-target/"])
+        r = subprocess.CompletedProcess(cmd, 124, (e.stdout or b"").decode("utf-8", "replace") if isinstance(e.stdout, bytes) else (e.stdout or "") + "\nTIMEOUT", None)
     return r.returncode, r.stdout
 
 
